@@ -50,8 +50,8 @@ def sample_ball(center : Vec, radius : float, n_pts : int, return_point_cloud : 
         np.random.normal(0.,1., size=n_pts)
     ]).T
     pts /= np.linalg.norm(pts, axis=1, keepdims=True)
-    R = np.random.uniform(0, radius, n_pts).reshape((n_pts,1))
-    R = np.cbrt(R) # R^{1/3} for uniform distribution
+    R = np.random.uniform(0, 1, n_pts).reshape((n_pts,1))
+    R = radius * np.cbrt(R) # R^{1/3} for uniform distribution in the unit ball, then scaled
     pts = pts*R + center
     if return_point_cloud:
         pointcloud = PointCloud()
@@ -92,6 +92,7 @@ def sample_AABB(
         res = round(np.power(n_pts, 1/box.dim))
         Xdims = (np.linspace(0,1,res) for _ in range(box.dim))
         points = np.vstack(list(map(np.ravel, np.meshgrid(*Xdims)))).T
+        points = box.mini + box.span * points # map the unit grid onto the box
     if return_point_cloud:
         return from_arrays(points)
     else:
